@@ -81,27 +81,28 @@ static unsigned long vp_pack(const char *s, int a, int b, int word)
 			w |= ((unsigned long) (unsigned char) s[k]) << (8 * (k % 8));
 	return w;
 }
-static unsigned long vp_dec_mag(const char *s, int a, int b)
-{
-	unsigned long m = __CPROVER_uninterpreted_dec_mag(vp_pack(s, a, b, 0), vp_pack(s, a, b, 1), a, b);
-	if (b - a <= 9 && m > 999999999UL)
-		m = 999999999UL;
-	if (b - a <= 18 && m > 999999999999999999UL)
-		m = 999999999999999999UL;
+#define VP_DEC_MAG_BODY(s, a, b) \
+	unsigned long m = __CPROVER_uninterpreted_dec_mag(vp_pack(s, a, b, 0), vp_pack(s, a, b, 1), a, b); \
+	if (b - a <= 9 && m > 999999999UL) \
+		m = 999999999UL; \
+	if (b - a <= 18 && m > 999999999999999999UL) \
+		m = 999999999999999999UL; \
 	return m;
-}
 #else
-static unsigned long vp_dec_mag(const char *s, int a, int b)
-{
-	unsigned long acc = 0;
-	for (int k = 0; k < VP_N; k++) {
-		if (k < a || k >= b)
-			continue;
-		acc = acc * 10UL + (unsigned long) (s[k] - '0');    /* wraps if it does not fit */
-	}
+#define VP_DEC_MAG_BODY(s, a, b) \
+	unsigned long acc = 0; \
+	for (int k = 0; k < VP_N; k++) { \
+		if (k < a || k >= b) \
+			continue; \
+		acc = acc * 10UL + (unsigned long) (s[k] - '0');    /* wraps if it does not fit */ \
+	} \
 	return acc;
-}
 #endif
+/* two textual copies of the same function: one for the specification (called from
+ * contract clauses), one for the strtol model (called from instrumented code); DFCC
+ * gives the two kinds of callers different calling conventions */
+static unsigned long vp_dec_mag(const char *s, int a, int b) { VP_DEC_MAG_BODY(s, a, b) }
+static unsigned long m_dec_mag(const char *s, int a, int b) { VP_DEC_MAG_BODY(s, a, b) }
 
 /* ------------------------------------------------------------------------
  * Trusted libc models.  Both are written position by position over the buffer being
@@ -209,7 +210,7 @@ long m_strtol(const char *nptr, char **endptr, int base)
 		errno = ERANGE;
 		return neg ? LONG_MIN : LONG_MAX;
 	}
-	unsigned long mag = vp_dec_mag(m_base, a, b);
+	unsigned long mag = m_dec_mag(m_base, a, b);
 	if (neg)        /* fits with the sign but not without it: exactly LONG_MIN */
 		return !vp_fits_long(m_base, a, b, 0) ? LONG_MIN : -(long) mag;
 	return (long) mag;
